@@ -54,6 +54,7 @@ let runners : (string * (z list -> z list)) list = [
   "cpq", run_cpq;
   "rw", run_rw;
   "simple", run_simple;
+  "allot", run_allot;
 ]
 
 let () =
